@@ -240,7 +240,8 @@ ReadOK(r, X) ==
 (* ---------------------------------------------------------------- Trunc *)
 \* "A data file shorter than its header announces is reported as an error rather than returned as an image."
 TruncOK(r, X) ==
-  /\ r.id = img.id /\ r.full = wr.hdrs[1].dlen /\ r.len >= 0 /\ r.len <= r.full
+  \* (r.file: which of the data files was cut - with the Multi format the first or the last individual one)
+  /\ r.id = img.id /\ r.file >= 1 /\ r.file <= Len(wr.hdrs) /\ r.full = wr.hdrs[r.file].dlen /\ r.len >= 0 /\ r.len <= r.full
   /\ (r.len < r.full => \/ ~r.accepted
                         \* known finding: only the first data set is ever read
                         \/ K_NMOFF \in X /\ r.len >= r.full \div img.nd)
